@@ -21,8 +21,18 @@ type Clause struct {
 	Src   string
 	E     Expr
 	Prop  string // property id this clause reports to ("" = block default)
+	Implicit bool
 	File  string
 	Line  int
+}
+
+// AtClause is an assertion attached to call sites inside the function:
+//   at <callee> assert label: expr      (every call whose callee name ends with <callee>)
+// The expression sees the function's parameters, source-level locals visible at
+// the call, and the call's arguments as $0, $1, ... (recv for the receiver).
+type AtClause struct {
+	Callee string
+	C      Clause
 }
 
 type LetDef struct {
@@ -36,6 +46,9 @@ type FuncContract struct {
 	Requires []Clause
 	Ensures  []Clause
 	Loops    map[int][]Clause
+	Ats      []AtClause
+	Locals   []QVar   // declared source-level locals (name, type): enables rename-tolerant resolution
+	Sets     []LetDef // ghost updates performed at function exit: sets g = expr
 	Lets     []LetDef
 	Trusted  bool // contract assumed, body not verified
 	Pure     bool // results are uninterpreted functions of the argument values
@@ -100,7 +113,7 @@ func NewSpecs() *Specs {
 	return &Specs{Funcs: map[string]*FuncContract{}, Spec: map[string]*SpecFunc{}, Axioms: map[string]*Axiom{}, Ghost: map[string]*GhostVar{}, Consts: map[string]string{}}
 }
 
-var kwRe = regexp.MustCompile(`^(func|iface|spec|macro|axiom|lemma|ghost|effectfree|property|requires|ensures|loop|let|trusted|pure|inline|noinline|safe|uses|modifies|noverify)\b`)
+var kwRe = regexp.MustCompile(`^(func|iface|spec|macro|axiom|lemma|ghost|effectfree|property|requires|ensures|loop|let|trusted|pure|inline|noinline|safe|uses|modifies|noverify|at|sets|local)\b`)
 
 // LoadFile parses one contract file. pkgPath is the import path used for
 // unqualified function names ("" for .spec files, which use full paths).
@@ -230,6 +243,50 @@ func (s *Specs) LoadFile(path, pkgPath string) error {
 				c.Label = "i" + strconv.Itoa(len(cur.Loops[n])+1)
 			}
 			cur.Loops[n] = append(cur.Loops[n], c)
+		case "at":
+			if cur == nil {
+				return fail(l, "at outside func block")
+			}
+			fs := strings.Fields(rest)
+			if len(fs) < 3 || fs[1] != "assert" {
+				return fail(l, "expected: at <callee> assert [label:] <expr>")
+			}
+			r := strings.TrimSpace(rest[strings.Index(rest, "assert")+len("assert"):])
+			c, err := parseClause(l, r)
+			if err != nil {
+				return err
+			}
+			if c.Label == "" {
+				c.Label = "a" + strconv.Itoa(len(cur.Ats)+1)
+			}
+			cur.Ats = append(cur.Ats, AtClause{Callee: fs[0], C: c})
+		case "local":
+			if cur == nil {
+				return fail(l, "local outside func block")
+			}
+			fs := strings.Fields(rest)
+			if len(fs) != 2 {
+				return fail(l, "expected: local <name> <type>")
+			}
+			cur.Locals = append(cur.Locals, QVar{fs[0], fs[1]})
+		case "sets":
+			if cur == nil {
+				return fail(l, "sets outside func block")
+			}
+			i := strings.Index(rest, "=")
+			if i < 0 {
+				return fail(l, "sets needs '='")
+			}
+			src := strings.TrimSpace(rest[i+1:])
+			e, err := ParseExpr(src)
+			if err != nil {
+				return fail(l, "%v", err)
+			}
+			g := strings.TrimSpace(rest[:i])
+			cur.Sets = append(cur.Sets, LetDef{g, e})
+			// callers learn the new value through an implicit postcondition
+			ie, _ := ParseExpr(g + " == (" + src + ")")
+			cur.Ensures = append(cur.Ensures, Clause{Label: "sets_" + g, Src: g + " == (" + src + ")", E: ie, File: path, Line: l.line, Implicit: true})
 		case "let":
 			if cur == nil {
 				return fail(l, "let outside func block")
@@ -283,10 +340,10 @@ func (s *Specs) LoadFile(path, pkgPath string) error {
 			s.EffectFree = append(s.EffectFree, strings.Fields(rest)...)
 		case "ghost":
 			fs := strings.Fields(rest)
-			if len(fs) != 3 || fs[0] != "var" {
+			if len(fs) < 3 || fs[0] != "var" {
 				return fail(l, "expected: ghost var <name> <sort>")
 			}
-			s.Ghost[fs[1]] = &GhostVar{Name: fs[1], Sort: fs[2]}
+			s.Ghost[fs[1]] = &GhostVar{Name: fs[1], Sort: strings.Join(fs[2:], " ")}
 		case "spec", "macro":
 			cur, curLemma = nil, nil
 			r := rest
